@@ -212,6 +212,13 @@ func (p *parser) afterBracket() Frag {
 		}
 	case ':':
 		return p.readSlice(0)
+	case '.':
+		// [..] is the bracket form of a recursive descent as written by
+		// BracketString().
+		if p.pos+1 < len(p.buf) && p.buf[p.pos] == '.' && p.buf[p.pos+1] == ']' {
+			p.pos += 2
+			return Descent('.')
+		}
 	case '?':
 		return p.readFilter()
 	case '(':
